@@ -1,4 +1,6 @@
-use chrono::{DateTime, Duration, NaiveDateTime, Utc};
+use chrono::Utc;
+
+const MS_PER_DAY: i64 = 86_400_000;
 
 ///
 /// current time in milliseconds since unix epoch
@@ -10,15 +12,10 @@ pub fn now() -> i64 {
 
 //returns the date without time
 pub fn date(date_time: i64) -> i64 {
-    let date = DateTime::from_timestamp_millis(date_time).unwrap();
-    let ds: NaiveDateTime = date.date_naive().and_hms_opt(0, 0, 0).unwrap();
-    ds.and_utc().timestamp_millis()
+    date_time.saturating_sub(date_time.rem_euclid(MS_PER_DAY))
 }
 
 //returns the next day without time
 pub fn date_next_day(date_time: i64) -> i64 {
-    let date = DateTime::from_timestamp_millis(date_time).unwrap();
-    let date = date + Duration::days(1);
-    let ds: NaiveDateTime = date.date_naive().and_hms_opt(0, 0, 0).unwrap();
-    ds.and_utc().timestamp_millis()
+    date(date_time.saturating_add(MS_PER_DAY))
 }
